@@ -357,6 +357,11 @@ def r3_canonical_descent(ctx, rule):
     from .common import queue_init_modes
     modes = queue_init_modes(ctx, PQ + '__init__')
     found = any(x in ('self.restore_base_item', 'self.pcfg.restore_prob_order') for x in modes['restore'])
+    if modes.get('per_item'):
+        ctx.bad(rule, PQ + '__init__', 'base structures are restored selectively: %s' % modes['per_item'][0][:90],
+                'every base structure must be restored: the nodes of a skipped one that were still queued when the session was saved '
+                '(for the Markov structure: every level after the interrupted one) are never emitted by the resumed run', None, None)
+        return
     if not found and modes['unknown']:
         ctx.unk(rule, PQ + '__init__', 'the restore walk depends on conditions that are not understood: %s' % modes['unknown'][:3])
         return
@@ -364,7 +369,7 @@ def r3_canonical_descent(ctx, rule):
         ctx.ok(rule, PQ + '__init__', 'restore walks every base structure')
     else:
         ctx.bad(rule, PQ + '__init__', 'restore path does not walk every base structure',
-                'every base structure must be restored', None, iq)
+                'every base structure must be restored', None, None)
 
 
 def r4_saved_position(ctx, rule):
